@@ -163,7 +163,7 @@ Proof. split; [apply C02_wf_reachable; exact H0_length|reflexivity]. Qed.
 (** a reused object at buffer level: stale digests stay in the backing arrays
     (second component) but are not visible (first component) *)
 Example slices_stale_invisible :
-  let s := srun H0 (fun n => n) snew [Startup 3; Extend 0 4 [1; 2]; ResetNoInit; Startup 7] in
+  let s := srun H0 (fun _ => 0%nat) snew [Startup 3; Extend 0 4 [1; 2]; ResetNoInit; Startup 7] in
   swf s /\
   get (pcrs (abs s)) 0 4 = Ok (repeat 0 19 ++ [7]) /\
   cmdlog (abs s) = [Startup 7] /\
